@@ -36,6 +36,10 @@ example := C11b.as_N_D_monic_value exR envR isExpRb hAR
 example := C11b.expandcanonical_src_value exR envR isExpRb hAR
 example := C11b.expand_response_value exR envR isExpRb hAR
 example := C11b.factors_of_expression exR envR isExpRb hAR
+example := C11b.canonical_fc_branches_value exR envR isExpRb hAR
+example := C11b.canonical_branches_value exR envR isExpRb hAR
+/-- the unit-gain, delay-free branch with an undefined factor -/
+example := C11b.canonical_fc_branches_value (⟨[2, 3, 1], [12, 7, 1], 0, 1⟩ : RF ℝ) envR isExpRb (by norm_num [envR, Poly.eval])
 end real
 
 /-! ### checker-based theorems over ℚ -/
